@@ -46,3 +46,7 @@ Example C19_example :
    NOutText [98;58;32;123;34;101;114;114;34;58;34;101;34;44;34;109;115;103;34;58;34;97;34;125]%N;
    NOutOrig [101]%N].
 Proof. vm_compute. reflexivity. Qed.
+
+Theorem C19_error_nonempty : forall cause l inner, fst (error_layers cause (l :: inner)) <> [].
+Proof. exact error_text_nonempty. Qed.
+Print Assumptions C19_error_nonempty.
